@@ -247,6 +247,15 @@ MISSING_DEP_SHAPES = [
 # (scenario, variant switched to or from in this step, pattern of the missed messages, shape)
 SNAPSHOT_SHAPES = [
     ("dataclass", 3, r"read-only|frozen", "dataclass-frozen-flag"),
+    # gen2 `sf-variable`: `v: int = 0` <-> `v: ClassVar[int] = 0` — Var.is_classvar is not in the Var snapshot
+    ("sf-variable", 5, r"class variable", "var-classvar-flag"),
+]
+# (scenario, variant switched to or from in this step, pattern of the missed messages, shape) — class missing-dependency
+KIND_CHANGE_SHAPES = [
+    # gen2 `tp-cast` / `tp-isinstance`: C reaches the user through a re-exporting module (`from M import C`, M: `from D import C as C`);
+    # D.C turns from an alias into a variable: the targets that use C in cast() / isinstance() are not reprocessed
+    ("tp-cast", 8, r"not valid as a type|C\? has no attribute|variables-vs-type-aliases", "reexported-name-alias-to-variable"),
+    ("tp-isinstance", 8, r"isinstance", "reexported-name-alias-to-variable"),
 ]
 
 
@@ -302,6 +311,14 @@ def explain(diff: list[str], dm: dict, fm: dict, hist_state: dict) -> tuple[list
                     mine = [l for l in minus if re.match(r"^[a-z]+" + idx + r"(\.pyi?|/)", l) and re.search(pattern, l)]
                     if mine:
                         obs.append({"class": "snapshot-incomplete", "scenario": scen, "shape": shape})
+                        minus = [l for l in minus if l not in mine]
+    if minus and hist_state.get("variants") and hist_state.get("scenario_history"):
+        for idx, ent in hist_state["variants"].items():
+            for scen, variant, pattern, shape in KIND_CHANGE_SHAPES:
+                if ent["scenario"] == scen and len(ent["hist"]) >= 2 and variant in ent["hist"][-2:]:
+                    mine = [l for l in minus if re.match(r"^[a-z]+" + idx + r"(\.pyi?|/)", l) and re.search(pattern, l)]
+                    if mine:
+                        obs.append({"class": "missing-dependency", "scenario": scen, "shape": shape})
                         minus = [l for l in minus if l not in mine]
     # order-only differences caused by a moved note are part of (a)
     if any(o["class"] == "only-once-note-moves" for o in obs):
